@@ -53,10 +53,10 @@ def _sym_expr(code):
     return _st().exprs[code - (PUA1 if code >= PUA1 else PUA0)]
 
 
-def lit_cond(ch, code, flags):
+def lit_cond(ch, code, flags, syms=None):
     """does character `ch` match LITERAL `code`?  bool | z3 Bool (never forks)"""
     if code >= PUA0:            # a symbolic character of the pattern text (came through re.escape)
-        e = _sym_expr(code)
+        e = syms[code] if syms is not None and code in syms else _sym_expr(code)
         if flags & _I:
             return _or([ch_eq(ch, e), ch_eq(_case1(ch, 'lower'), _case1(e, 'lower')),
                         ch_eq(_case1(ch, 'upper'), _case1(e, 'upper'))])
@@ -67,9 +67,10 @@ def lit_cond(ch, code, flags):
     return ch_in(ch, ('=', lit), lambda c: c == lit)
 
 
-def in_cond(ch, items, flags):
+def in_cond(ch, items, flags, syms=None):
     """character class; bool | z3 Bool (never forks)"""
     neg = False
+    table = syms
     preds, syms = [], []
     for op, av in items:
         if op is _rc.NEGATE:
@@ -96,7 +97,7 @@ def in_cond(ch, items, flags):
     key = ('fin', repr([(str(o), a if not isinstance(a, tuple) else tuple(a)) for o, a in items if o is not _rc.NEGATE]),
            flags & (_I | _A))
     parts = [ch_in(ch, key, lambda c: any(p(c) for p in preds))] if preds else []
-    parts.extend(lit_cond(ch, code, flags) for code in syms)
+    parts.extend(lit_cond(ch, code, flags, table) for code in syms)
     r = _or(parts)
     return _not(r) if neg else r
 
@@ -104,10 +105,11 @@ def in_cond(ch, items, flags):
 class _DP:
     """one formula construction: pattern tree x characters[0:n]"""
 
-    def __init__(self, comp, chars, endpos):
+    def __init__(self, comp, chars, endpos, syms=None):
         self.comp = comp
         self.s = chars
         self.n = endpos
+        self.syms = syms
         self.la_memo: dict = {}
 
     # ---- zero-width tests ----
@@ -173,15 +175,15 @@ class _DP:
 
     def _step(self, op, av, flags, cur):
         if op is _rc.LITERAL:
-            return self._char_step(cur, lambda ch: lit_cond(ch, av, flags))
+            return self._char_step(cur, lambda ch: lit_cond(ch, av, flags, self.syms))
         if op is _rc.NOT_LITERAL:
-            return self._char_step(cur, lambda ch: _not(lit_cond(ch, av, flags)))
+            return self._char_step(cur, lambda ch: _not(lit_cond(ch, av, flags, self.syms)))
         if op is _rc.ANY:
             if flags & _S:
                 return self._char_step(cur, lambda ch: True)
             return self._char_step(cur, lambda ch: _not(_is_nl(ch)))
         if op is _rc.IN:
-            return self._char_step(cur, lambda ch: in_cond(ch, av, flags))
+            return self._char_step(cur, lambda ch: in_cond(ch, av, flags, self.syms))
         if op is _rc.AT:
             out: dict = {}
             for p, c in cur.items():
@@ -272,11 +274,20 @@ class FMatch(sstr.SMatch):
 class FPattern(sstr.SPattern):
     """compiled pattern whose search / match / fullmatch are decided as one formula"""
 
+    def __init__(self, pattern, flags=0):
+        super().__init__(pattern, flags)
+        # symbolic literals of the pattern text are resolved to their z3 terms now: the placeholder table is per
+        # path, but a pattern object may outlive the path (a cache inside the code under test); the terms
+        # themselves (named variables) mean the same thing on every path
+        self._syms = None
+        if has_sym(self.pattern_text):
+            self._syms = {ord(ch): _sym_expr(ord(ch)) for ch in self.pattern_text if ord(ch) >= PUA0}
+
     def exists(self, kind: str, string, pos=0, endpos=None):
         """bool | z3 Bool: `kind`(string) finds a match.  Never forks.  Raises _Unsupported for patterns
         with back-references / atomic constructs."""
         cs, pos, endpos = self._prep(string, pos, endpos)
-        dp = _DP(self._comp, cs, endpos)
+        dp = _DP(self._comp, cs, endpos, self._syms)
         flags = self._comp.flags
         if kind == 'search':
             start = {p: True for p in range(pos, endpos + 1)}
